@@ -89,7 +89,7 @@ def gen_case(rng):
             # spread the labels so that differences of neighbours do not fit the label dtype
             f = 4 if ldt == 'int8' else 1000
             lab = [v * f for v in lab]
-        return {"block": "strict", "lab": lab, "kind": kind, "ldtype": ldt, "start": bound(), "stop": bound(), "step": rng.choice(STEPS)}
+        return {"block": "strict", "lab": lab, "kind": kind, "ldtype": ldt, "derive": rng.choice([None, None, None, 'rev', 'revix', 'sub']), "start": bound(), "stop": bound(), "step": rng.choice(STEPS)}
     if r < 0.55:
         # monotonic axes with irregular spacing and bounds of the other numeric kind
         n = rng.randint(0, 6)
@@ -100,7 +100,8 @@ def gen_case(rng):
             j = rng.randrange(n - 1)
             lab[j + 1] = lab[j]
         pool = [None] + [v / 4.0 for v in range(-24, 128)] + list(range(-6, 32))
-        return {"block": "mono-rand", "lab": lab, "kind": kind, "ldtype": gen.label_dtype(rng, lab, kind, p=0.2), "start": rng.choice(pool), "stop": rng.choice(pool), "step": rng.choice(STEPS + [4, -3])}
+        return {"block": "mono-rand", "lab": lab, "kind": kind, "ldtype": gen.label_dtype(rng, lab, kind, p=0.2),
+                "derive": rng.choice([None, None, 'rev', 'revix', 'sub']), "start": rng.choice(pool), "stop": rng.choice(pool), "step": rng.choice(STEPS + [4, -3])}
     if r < 0.8:
         # N-d: a slice in one or two dims, other index kinds elsewhere
         sp = gen.spec(rng, mindim=1, maxdim=4, minsize=1, maxsize=5, narrow=True)
@@ -165,7 +166,28 @@ def check(case, ctx):
         n = len(lab)
         sp = {"dims": ["t"], "labels": [lab], "kinds": [kind], "ldtypes": [case.get("ldtype")], "values": np.arange(n, dtype=float) * 10 + 7}
         m = model.from_spec(sp)
-        a = gen.build(sp)
+        dv = case.get("derive")
+        if dv and n >= 1:
+            # same observable content, other history: the array is a reversed / positional slice of a parent whose axis has
+            # already been searched (so that whatever the axis caches about its ordering is populated and then inherited)
+            psp = dict(sp)
+            if dv in ('rev', 'revix'):
+                psp["labels"] = [lab[::-1]]
+                psp["values"] = sp["values"][::-1].copy()
+            else:
+                extra = (max(lab) + 3) if kind != 's' else 'zz'
+                psp["labels"] = [[extra] + list(lab)]
+                psp["values"] = np.concatenate([[-1.], sp["values"]])
+            parent = gen.build(psp)
+            parent.axes[0].is_monotonic()
+            try:
+                parent[psp["labels"][0][0]:psp["labels"][0][-1]]
+            except Exception:
+                pass
+            a = parent[::-1] if dv == 'rev' else parent.ix[::-1] if dv == 'revix' else parent.ix[1:]
+            ctx.outcomes['derived-axes'] += 1
+        else:
+            a = gen.build(sp)
         sl = slice(case["start"], case["stop"], case["step"])
         exp = exp_exc = None
         try:
